@@ -3,6 +3,7 @@ package main
 import (
 	"encoding/hex"
 	"strings"
+	"sync"
 
 	"github.com/gcash/bchd/bchec"
 	"github.com/gcash/bchd/chaincfg"
@@ -14,6 +15,25 @@ var nets = []*chaincfg.Params{&chaincfg.MainNetParams, &chaincfg.TestNet3Params,
 	&chaincfg.ChipNetParams, &chaincfg.RegressionNetParams, &chaincfg.SimNetParams}
 
 func netIdx(s string) *chaincfg.Params { return nets[atoi(s)] }
+
+var collidingOnce sync.Once
+
+func registerCollidingNet() {
+	collidingOnce.Do(func() {
+		p := chaincfg.RegressionNetParams // a copy
+		p.Name = "verif-colliding"
+		p.Net = 0x76657266
+		p.LegacyPubKeyHashAddrID = 5
+		p.LegacyScriptHashAddrID = 0
+		p.CashAddressPrefix = "verifcoll"
+		p.SlpAddressPrefix = "verifslp"
+		p.HDPrivateKeyID = [4]byte{0x7a, 0x7a, 0x7a, 0x01}
+		p.HDPublicKeyID = [4]byte{0x7a, 0x7a, 0x7a, 0x02}
+		if err := chaincfg.Register(&p); err != nil {
+			panic("harness: register colliding net: " + err.Error())
+		}
+	})
+}
 
 func addrErr(err error) string {
 	switch err {
@@ -230,6 +250,12 @@ func execAddr(c Case) string {
 		}
 		return "ok"
 	case "dec": // dec <net> <string>
+		d, err := bchutil.DecodeAddress(string(unhx(a[1])), netIdx(a[0]))
+		return decObs(d, err)
+	case "collide": // collide <net> <string>: DecodeAddress after a network was registered whose P2PKH id is mainnet's P2SH
+		// id (5) and whose P2SH id is mainnet's P2PKH id (0): both ids now name both kinds. Registration cannot be undone, so
+		// these cases are the LAST ones a generator emits.
+		registerCollidingNet()
 		d, err := bchutil.DecodeAddress(string(unhx(a[1])), netIdx(a[0]))
 		return decObs(d, err)
 	case "pm":
@@ -693,5 +719,12 @@ func genC02(r *Rng, tier string, emit func(Case)) {
 		}
 		e("dec", "raw", itoa(ni), hx(raw))
 		e("dec", "short", itoa(ni), hs((pre + ":" + s)[:r.Intn(len(pre)+4)]))
+	}
+	// LAST (registration is permanent for the process): legacy addresses of every version byte class, after a network
+	// was registered that makes ids 0 and 5 ambiguous
+	for i := 0; i < 12; i++ {
+		ver := byte(r.Pick(0, 5, 0, 5, 111, 196, 63, 123, 7))
+		ls := base58.CheckEncode(r.Bytes(r.Pick(20, 20, 20, 21, 32)), ver)
+		e("collide", "registered-collision", itoa(r.Intn(len(nets))), hs(ls))
 	}
 }
